@@ -443,9 +443,10 @@ pub fn scenarios(tier: &str) -> Vec<PyScenario> {
                             }
                             // a resolution set through the wrapper's set_longest_valid_segment_fraction
                             if let Spec::Rv { .. } | Spec::So2 { .. } | Spec::So3 { .. } = &v.spec {
-                                for fr in [0.2, 0.011, 2.0, -1.0] {
+                                for (fr, late) in [(0.2, false), (0.011, false), (2.0, false), (-1.0, false), (0.2, true), (1.0, true)] {
                                     let mut x = base.clone();
-                                    x.id = format!("{}/frac{fr}", base.id);
+                                    // late: the resolution is set after the space object has already served a problem definition
+                                    x.id = if late { format!("{}/frac-late{fr}", base.id) } else { format!("{}/frac{fr}", base.id) };
                                     match &mut x.spec {
                                         Spec::Rv { frac, .. } | Spec::So2 { frac, .. } | Spec::So3 { frac, .. } => *frac = Some(fr),
                                         _ => {}
